@@ -710,7 +710,8 @@ def gen_c12_pool(r, deep=0):
         pl.append(["param", f"p{i}"])
     if r.random() < 0.6:
         n = r.choice([2, 3])
-        sp["params"].append({"kind": "vector", "name": "q", "n": n, "values": [r.choice(PGRID) for _ in range(n)]})
+        grid = IGRID if r.random() < 0.25 else PGRID
+        sp["params"].append({"kind": "vector", "name": "q", "n": n, "values": [r.choice(grid) for _ in range(n)]})
         pl.extend(["pel", "q", j] for j in range(n))
     core = [n for n in S.all_element_names(sp) if n != "w"]
     L = lambda n: ref_of(sp, n)  # noqa: E731
@@ -740,6 +741,8 @@ def gen_c12_pool(r, deep=0):
     ex["o4"] = ["chain", "+", [["*", r.choice(pl), L(n)] for n in e] + [["num", 1.0]]]  # linear in x with parameter coefficients
     f = pick(2)
     ex["o5"] = ["+", ["*", ["*", r.choice(pl), L(f[0])], L(f[-1])], sq_sum(f, True)]  # cross term coefficient
+    iv = pick(2)
+    ex["oi"] = ["+", ["*", L(iv[0]), ["**", r.choice(pl), ["num", -1]]], sq_sum(iv, False)]  # x * p**-1 (a rate, a price per unit)
     f2 = pick(3)
     ex["oa"] = ["chain", "+", [["*", ["*", r.choice(pl), L(f2[0])], L(f2[1 % len(f2)])], ["*", ["*", L(f2[-1]), r.choice(pl)], L(f2[0])],
                                ["**", ["-", L(f2[0]), ["num", 1.0]], ["num", 2]]]]  # two parameter-weighted bilinear terms
@@ -824,6 +827,7 @@ def gen_handle(r, sp, hid, enames):
     if len(need) >= 2 and r.random() < 0.1:
         # a request that cannot be compiled: a needed variable is missing from the order
         a["order"] = [n for n in a["order"] if n != need[-1]]
+        a["bad_order"] = True
     if kind == "symgrad":
         a["wrt"] = r.choice(need) if need else S.all_element_names(sp)[0]
     return ["compile", 0, hid, kind, a]
@@ -842,13 +846,18 @@ def gen_param_ops_reset(r, sp):
     return ops + [["pel_set", 0, d["name"], i, z], ["vparam_set", 0, d["name"], A]]
 
 
+IGRID = [-3, -1, 1, 2, 2, 3, 5]  # the same numbers a user would type without a decimal point
+
+
 def gen_param_op(r, sp):
     d = r.choice(sp["params"])
+    ints = r.random() < 0.2
+    grid = IGRID if ints else PGRID
     if d["kind"] == "scalar":
-        return ["param_set", 0, d["name"], r.choice(PGRID)]
+        return ["param_set", 0, d["name"], r.choice(grid)]
     if r.random() < 0.5:
-        return ["vparam_set", 0, d["name"], [r.choice(PGRID) for _ in range(d["n"])]]
-    return ["pel_set", 0, d["name"], r.randrange(d["n"]), r.choice(PGRID)]
+        return ["vparam_set", 0, d["name"], [r.choice(grid) for _ in range(d["n"])]]
+    return ["pel_set", 0, d["name"], r.randrange(d["n"]), r.choice(grid)]
 
 
 def gen_c12(r):
